@@ -172,7 +172,8 @@ def session_jobs(scale=1.0):
     return [
         Job("sess-t1024-x16k-c8", engine="session", profile="smallchunk", env=senv(1024, 16384, 8, ib=65536, shard_min=8192),
             workers=(3, 45), cases=c(60, 400), time_s=(45, 800), **FULL),
-        Job("sess-t256-x1k-c64", engine="session", profile="smallchunk", env=senv(256, 1024, 64, ib=512, shard_min=1024),
+        # many small shards per session and a chunk-index cap of 6000 (clause (b) is judged while the history has stored < 3000 distinct chunks)
+        Job("sess-t256-x1k-c64", engine="session", profile="smallchunk", env=dict(senv(256, 1024, 64, ib=512, shard_min=1024), HF_XET_CHUNK_INDEX_TABLE_MAX_SIZE=6000),
             workers=(2, 30), cases=c(60, 400), time_s=(45, 800), args={"max-file-bytes": 20000}, **FULL),
         Job("sess-t4096-x256k-c2", engine="session", profile="smallchunk", env=senv(4096, 262144, 2),
             workers=(2, 20), cases=c(40, 400), time_s=(45, 800), args={"max-file-bytes": 200000}, **FULL),
@@ -183,6 +184,9 @@ def session_jobs(scale=1.0):
         # many concurrent small multi-xorb files per session, a shard cut every few records: races on the shared session state
         Job("sess-storm-t256-x1k", engine="session", profile="smallchunk", env=senv(256, 1024, 64, ib=512, shard_min=1024),
             workers=(3, 30), cases=c(40, 400), time_s=(45, 800), args={"storm": True, "max-files": 24, "max-file-bytes": 6000, "max-sessions": 2, "no-global": True}, **FULL),
+        # cached shards valid for 600 s (instead of three weeks); later sessions come through their own manager instance after a 2.1 s pause
+        Job("sess-validity600-t1024", engine="session", profile="smallchunk", env=dict(senv(1024, 16384, 8, ib=65536, shard_min=8192), HF_XET_MDB_SHARD_LOCAL_CACHE_EXPIRATION_SECS=600),
+            workers=(2, 8), cases=c(14, 120), time_s=(60, 800), args={"alias-bias": True, "alias-sleep-ms": 2100, "no-global": True, "max-sessions": 3}, **FULL),
         Job("sess-prod-x1m-c16", engine="session", profile="prodlike", env=senv(65536, 1048576, 16),
             workers=(3, 12), cases=c(6, 150), time_s=(45, 800), args={"max-file-bytes": 3000000, "max-files": 4, "max-sessions": 3}, **FULL),
         # full default limits (64 KiB chunks, 64 MiB / 8192-chunk xorbs): a few large files, thorough tier only
@@ -195,7 +199,7 @@ def session_jobs(scale=1.0):
 def mgrconc_jobs():
     """One ShardFileManager under concurrent adds / flushes / queries (conservation of records, truthful answers)."""
     return [
-        Job("mgrconc-512", engine="shard_mgr_conc", profile="prodlike", env={"HF_XET_MDB_SHARD_MIN_TARGET_SIZE": 512}, workers=(3, 8), cases=(150, 4000), time_s=(40, 600), **PURE),
+        Job("mgrconc-512", engine="shard_mgr_conc", profile="prodlike", env={"HF_XET_MDB_SHARD_MIN_TARGET_SIZE": 512, "HF_XET_CHUNK_INDEX_TABLE_MAX_SIZE": 6000}, workers=(3, 8), cases=(150, 4000), time_s=(40, 600), **PURE),
         Job("mgrconc-4k", engine="shard_mgr_conc", profile="prodlike", env={"HF_XET_MDB_SHARD_MIN_TARGET_SIZE": 4096}, workers=(2, 8), cases=(150, 4000), time_s=(40, 600), **PURE),
     ]
 
@@ -227,7 +231,7 @@ SESSION_ASSUMPTIONS = [
 SESSION_RULE = ("case = history of 1..4 upload sessions against one store (1..6 files per session built from recipes: fresh / const / periodic / low-entropy / "
                 "copies of earlier files at arbitrary offsets / self-copies / interleaved short dedup runs; sizes biased to 0, 1, chunk and xorb limits +-1, multi-xorb; "
                 "8 feed partitions; files cleaned sequentially or concurrently on 1/2/4/16-worker runtimes; seeded put / shard-upload delays; sessions with a fresh shard cache "
-                "exercise global dedup) under 7 limit configurations (one process each); every session whose calls all returned Ok is judged by all monitors. ")
+                "exercise global dedup) under 8 configurations (one process each; one with a lowered chunk-index cap, one with cached shards valid for 600 s and later sessions started after a pause through their own manager instance); every session whose calls all returned Ok is judged by all monitors. ")
 
 PROPS["C01"] = dict(
     level="exploration",
